@@ -1,8 +1,8 @@
 //! Glue for coverage-guided fuzzing (cargo-fuzz / libFuzzer, thorough tiers).
 //!
-//! Structured targets decode the fuzzer's bytes into the *same* generator values the proptest
-//! checks use: the bytes are fed to the strategies through proptest's pass-through RNG, so
-//! libFuzzer mutates generator decisions and the property's own oracle runs inside the target.
+//! Structured targets decode the fuzzer's bytes into the *same* recipe values the proptest checks
+//! generate (`decode.rs`, a bounded byte-cursor decoder), so libFuzzer mutates generator decisions
+//! and the property's own oracle runs inside the target.
 //! `fuzz_one` is also what `avra-verif fuzzreplay` calls, so an artifact is re-judged on the
 //! deterministic path without any fuzzing engine.
 
@@ -10,8 +10,7 @@ use crate::evidence::{Ev, KnownFindings, Violation};
 use crate::model::{self, ModelOpts};
 use crate::props::{c02, c03, c05, c06, c08, c09, c10, c14};
 use crate::run::{build, Outcome};
-use proptest::strategy::{Strategy, ValueTree};
-use proptest::test_runner::{Config, RngAlgorithm, TestRng, TestRunner};
+use crate::decode::{self, Cur};
 use std::sync::OnceLock;
 
 pub const TARGETS: &[(&str, &str)] =
@@ -19,17 +18,6 @@ pub const TARGETS: &[(&str, &str)] =
 
 pub fn property_of(target: &str) -> Option<&'static str> {
     TARGETS.iter().find(|(t, _)| *t == target).map(|(_, p)| *p)
-}
-
-fn draw<S: Strategy>(s: &S, data: &[u8]) -> Option<S::Value> {
-    // at least 32 bytes of entropy are needed to seed; shorter inputs are padded with zeros
-    let mut seed = data.to_vec();
-    if seed.len() < 64 {
-        seed.resize(64, 0);
-    }
-    let rng = TestRng::from_seed(RngAlgorithm::PassThrough, &seed);
-    let mut runner = TestRunner::new_with_rng(Config { failure_persistence: None, ..Config::default() }, rng);
-    s.new_tree(&mut runner).ok().map(|t| t.current())
 }
 
 static KNOWN: OnceLock<KnownFindings> = OnceLock::new();
@@ -54,38 +42,38 @@ pub fn fuzz_one(target: &str, data: &[u8]) -> Result<(), Violation> {
                 _ => Ok(()),
             }
         }
-        "expr" => match draw(&c05::tree_case(), data) {
-            Some(c) => judge("C05", c05::test_tree(&c, &mut ev, &ModelOpts { devices: vec![] })),
-            None => Ok(()),
-        },
-        "style" => match draw(&c14::pair(), data) {
-            Some(c) => judge("C14", c14::test(&c, &mut ev, devices)),
-            None => Ok(()),
-        },
-        "layout" => match draw(&c02::raw_prog(), data) {
-            Some(c) => judge("C02", c02::test(&c, &mut ev, &ModelOpts { devices: devices.clone() }, data.first().map(|b| b & 1 == 1).unwrap_or(false))),
-            None => Ok(()),
-        },
-        "rel" => match draw(&c03::rel_case(), data) {
-            Some(c) => judge("C03", c03::test(&c, &mut ev, &ModelOpts { devices: devices.clone() })),
-            None => Ok(()),
-        },
-        "data" => match draw(&c06::raw_data(), data) {
-            Some(c) => judge("C06", c06::test(&c, &mut ev, &ModelOpts { devices: vec![] })),
-            None => Ok(()),
-        },
-        "cond" => match draw(&c08::raw_case(), data) {
-            Some(c) => judge("C08", c08::test(&c, &mut ev, &ModelOpts { devices: devices.clone() })),
-            None => Ok(()),
-        },
-        "macro" => match draw(&c09::raw_macros(), data) {
-            Some(c) => judge("C09", c09::test(&c, &mut ev, &ModelOpts { devices: vec![] })),
-            None => Ok(()),
-        },
-        "syms" => match draw(&c10::raw_syms(), data) {
-            Some(c) => judge("C10", c10::test(&c, &mut ev, &ModelOpts { devices: vec![] })),
-            None => Ok(()),
-        },
+        "expr" => {
+            let c = decode::tree_case(&mut Cur::new(data));
+            judge("C05", c05::test_tree(&c, &mut ev, &ModelOpts { devices: vec![] }))
+        }
+        "style" => {
+            let c = decode::pair(&mut Cur::new(data));
+            judge("C14", c14::test(&c, &mut ev, devices))
+        }
+        "layout" => {
+            let c = decode::raw_prog(&mut Cur::new(data));
+            judge("C02", c02::test(&c, &mut ev, &ModelOpts { devices: devices.clone() }, data.last().map(|b| b & 1 == 1).unwrap_or(false)))
+        }
+        "rel" => {
+            let c = decode::rel_case(&mut Cur::new(data));
+            judge("C03", c03::test(&c, &mut ev, &ModelOpts { devices: devices.clone() }))
+        }
+        "data" => {
+            let c = decode::raw_data(&mut Cur::new(data));
+            judge("C06", c06::test(&c, &mut ev, &ModelOpts { devices: vec![] }))
+        }
+        "cond" => {
+            let c = decode::raw_case(&mut Cur::new(data));
+            judge("C08", c08::test(&c, &mut ev, &ModelOpts { devices: devices.clone() }))
+        }
+        "macro" => {
+            let c = decode::raw_macros(&mut Cur::new(data));
+            judge("C09", c09::test(&c, &mut ev, &ModelOpts { devices: vec![] }))
+        }
+        "syms" => {
+            let c = decode::raw_syms(&mut Cur::new(data));
+            judge("C10", c10::test(&c, &mut ev, &ModelOpts { devices: vec![] }))
+        }
         _ => Ok(()),
     }
 }
